@@ -89,11 +89,14 @@ def gaps_of(ctx: Ctx, g, maxabs: float) -> dict:
         return NOGAP
 
 
-def run_trace(tid, n, cls, mode, hidden_f, objs, rng, length, with_gaps, ops_weights, reveal_only=False, script=None):
-    """hidden_f: list of floats (true game).  Returns the trace dict."""
+def run_trace(tid, n, cls, mode, hidden_f, objs, rng, length, with_gaps, ops_weights, reveal_only=False, script=None, reuse=None,
+              min_scale=1, keep_games=False):
+    """hidden_f: list of floats (true game).  Returns the trace dict.
+    reuse: game objects left behind by an earlier trace (another hidden game): this trace starts from whatever they hold and its first
+    operation is a bulk reset to the new game's values (an object re-used for a second game, as the environment does at every reset)."""
     maxabs = max(abs(x) for x in hidden_f) if hidden_f else 1.0
     if mode == "exact":
-        scale = 1
+        scale = min_scale
         while any(float(x) * scale != round(float(x) * scale) for x in hidden_f):
             scale *= 2
             if scale > 2 ** 44:
@@ -105,7 +108,7 @@ def run_trace(tid, n, cls, mode, hidden_f, objs, rng, length, with_gaps, ops_wei
         grid = 2.0 ** 16 / D.pow2_at_least(max(maxabs, 1e-6))
         tol, tol2 = 1, n + 2
     ctx = Ctx(n, mode, scale, grid)
-    games = [IncompleteCooperativeGame(n, computer_for(o["comp"], o["r"])) for o in objs]
+    games = reuse if reuse is not None else [IncompleteCooperativeGame(n, computer_for(o["comp"], o["r"])) for o in objs]
     minimal = D.minimal(n)
     expl = D.explorable(n)
 
@@ -120,7 +123,8 @@ def run_trace(tid, n, cls, mode, hidden_f, objs, rng, length, with_gaps, ops_wei
                 excs[j] = type(ex).__name__
 
     mc = [Coalition(c) for c in minimal]
-    apply_all(lambda g: g.set_known_values([hidden_f[c] for c in minimal], mc))
+    if reuse is None:
+        apply_all(lambda g: g.set_known_values([hidden_f[c] for c in minimal], mc))
 
     def tabs(extra=None):
         out = []
@@ -139,7 +143,15 @@ def run_trace(tid, n, cls, mode, hidden_f, objs, rng, length, with_gaps, ops_wei
     prev_op = "init"
     known = set(minimal)
     since_compute = 0
-    for step in range(length if script is None else len(script)):
+    reload_plan = []
+    if reuse is not None:
+        known = {c for c in range(2 ** n) if games[0].is_value_known(Coalition(c))}
+        # the second game is loaded either by one bulk reset or value by value over the SAME knowledge set (seed C04-f: overwriting the
+        # value of an already known coalition); no recomputation while the table is half one game and half the other
+        reload_plan = ["reset"] if rng.random() < 0.5 else ["reload"] * len([c for c in known if c != 0])
+        reload_list = sorted(c for c in known if c != 0)
+        rng.shuffle(reload_list)
+    for step in range((length + len(reload_plan)) if script is None else len(script)):
         unknown = [c for c in expl if c not in known]
         revealed = [c for c in expl if c in known]
         choices = []
@@ -155,13 +167,17 @@ def run_trace(tid, n, cls, mode, hidden_f, objs, rng, length, with_gaps, ops_wei
                 choices += ["unset"]
         choices += ["compute"] * ops_weights[3]
         op = rng.choice(choices) if script is None else "compute"
-        if since_compute >= 3 or step == length - 1 or (reveal_only and prev_op != "compute"):
+        if since_compute >= 3 or step == length + len(reload_plan) - 1 or (reveal_only and prev_op != "compute"):
             op = "compute"
         if reveal_only and prev_op == "compute" and unknown:
             op = "reveal"
+        if script is None and unknown and step > 0 and rng.random() < 0.1:
+            op = "elsewhere"
+        if reuse is not None and step < len(reload_plan):
+            op = reload_plan[step]
         if script is not None:
             op = script[step]["op"]
-        ev = {"op": op, "c": 0, "val": 0, "cs": [], "vals": []}
+        ev = {"op": op, "c": 0, "val": 0, "cs": [], "vals": [], "mix": 0}
         extra = None
         if op == "reveal":
             c = rng.choice(unknown) if script is None else script[step]["c"]
@@ -169,14 +185,38 @@ def run_trace(tid, n, cls, mode, hidden_f, objs, rng, length, with_gaps, ops_wei
             known.add(c)
             ev["c"], ev["val"] = c, ctx.num(hidden_f[c])
             since_compute += 1
+        elif op == "elsewhere":
+            # something happens to ANOTHER object derived from this one -- a copy (a look-ahead, a snapshot) gets a coalition revealed and
+            # its bounds computed, then is dropped: the object under test must not notice (seeds C07-f, C17-d: state shared with copies)
+            c = rng.choice(unknown) if script is None else script[step]["c"]
+
+            def poke(g):
+                h = g.copy()
+                h.reveal_value(hidden_f[c], Coalition(c))
+                h.compute_bounds()
+                if script is None and rng.random() < 0.5:
+                    h.unreveal_value(Coalition(c))
+            apply_all(poke)
+            ev["c"] = c
         elif op == "unreveal":
             c = rng.choice(revealed) if script is None else script[step]["c"]
             apply_all(lambda g: g.unreveal_value(Coalition(c)))
             known.discard(c)
             ev["c"] = c
             since_compute += 1
+        elif op == "reload":
+            c = reload_list[step]
+            apply_all(lambda g: g.set_value(hidden_f[c], Coalition(c)))
+            ev["op"] = "set"
+            ev["c"], ev["val"] = c, ctx.num(hidden_f[c])
+            ev["mix"] = int(step < len(reload_plan) - 1)     # the table still holds values of the previous game
+            since_compute = 0
         elif op == "set":
             c = rng.choice(expl) if script is None else script[step]["c"]
+            if cls == "ANY" and script is None and rng.random() < 0.5:
+                # games of any class (C08): the value of a coalition -- known already or not -- is OVERWRITTEN with another one, as when a
+                # second game is loaded into the same object (seed C04-f: a cache of known values dropped only when knowledge GROWS)
+                hidden_f[c] = float(rng.randint(-6, 9))
             apply_all(lambda g: g.set_value(hidden_f[c], Coalition(c)))
             known.add(c)
             ev["c"], ev["val"] = c, ctx.num(hidden_f[c])
@@ -190,7 +230,9 @@ def run_trace(tid, n, cls, mode, hidden_f, objs, rng, length, with_gaps, ops_wei
         elif op == "set_many":
             cs = rng.sample(expl, rng.randint(1, max(1, min(3, len(expl))))) if script is None else list(script[step]["cs"])
             if cs:
-                apply_all(lambda g: g.set_values(np.array([hidden_f[c] for c in cs]), [Coalition(c) for c in cs]))
+                fc2 = rng.randrange(3) if script is None else 0
+                apply_all(lambda g: g.set_values(np.array([hidden_f[c] for c in cs]),
+                                                 [Coalition(c) for c in cs] if fc2 == 0 else (Coalition(c) for c in cs) if fc2 == 1 else map(Coalition, cs)))
             known.update(cs)
             ev["cs"], ev["vals"] = cs, [ctx.num(hidden_f[c]) for c in cs]
             since_compute += 1
@@ -210,7 +252,14 @@ def run_trace(tid, n, cls, mode, hidden_f, objs, rng, length, with_gaps, ops_wei
                 rng.shuffle(cs)
             else:
                 cs = list(script[step]["cs"])
-            apply_all(lambda g: g.set_known_values([hidden_f[c] for c in cs], [Coalition(c) for c in cs]))
+            if script is None:
+                fv, fc = rng.randrange(3), rng.randrange(4)       # every Iterable form the signature allows, values and coalitions alike
+            else:
+                fv, fc = 0, 0
+            apply_all(lambda g: g.set_known_values(
+                [hidden_f[c] for c in cs] if fv == 0 else (hidden_f[c] for c in cs) if fv == 1 else np.array([hidden_f[c] for c in cs]),
+                [Coalition(c) for c in cs] if fc == 0 else (Coalition(c) for c in cs) if fc == 1 else tuple(Coalition(c) for c in cs) if fc == 2
+                else map(Coalition, cs)))
             known = set(cs)
             ev["cs"], ev["vals"] = cs, [ctx.num(hidden_f[c]) for c in cs]
             since_compute += 1
@@ -242,7 +291,24 @@ def run_trace(tid, n, cls, mode, hidden_f, objs, rng, length, with_gaps, ops_wei
         trace["events"].append(ev)
         prev_op = op
         yield None
+    if keep_games:
+        trace["_games"] = games
     yield trace
+
+
+def chain_two(tid, n, cls, mode, v, v2, objs, rng, length, with_gaps, w, reveal_only):
+    """two traces on the same game objects: the first one is yielded with the key _more (the consumer keeps the generator)"""
+    first = None
+    for out in run_trace(tid, n, cls, mode, v, objs, rng, length, with_gaps, w, reveal_only, keep_games=True):
+        if out is None:
+            yield None
+        else:
+            first = out
+    games = first.pop("_games")
+    first["_more"] = 1
+    yield first
+    yield from run_trace(tid + 500000, n, cls, mode, v2, objs, rng, max(4, length // 2), with_gaps, w, False, reuse=games,
+                         min_scale=max(1, first["scale"]))
 
 
 FLOAT_SA = ["noisy_factory", "noisy_factory_square", "graph_random", "graph_cycle", "graph_geometric", "noisy_factory_fixed"]
@@ -401,13 +467,27 @@ def main():
             length = a.length if not reveal_only else min(2 * len(D.explorable(n)) + 1, 2 * a.length + 1)
             w = (4, 2, 1, 3)
             gen = run_trace(tid, n, cls, mode, v, objs, rng, length, bool(a.gaps), w, reveal_only)
+            if mode == "exact" and fam in ("sa", "cached", "sam", "any") and i % 3 == 1 and max(abs(x) for x in v) < 2 ** 12 \
+                    and all(float(x) * 8 == round(float(x) * 8) for x in v) and max(abs(x) for x in v) >= 1:
+                # the same OBJECTS are then used for a second hidden game of the same class, of another scale and sign (seed C01-f: what an
+                # earlier game left in the table must not leak into the next one, whatever is done before the first recomputation)
+                if cls == "SA":
+                    v2 = [float(x) for x in D.random_sa_game(n, rng, sing=rng.choice([(-9, -1), (3, 9), (0, 0)]), slack=(0, 6))]
+                elif cls == "SAM":
+                    v2 = [float(x) for x in D.random_sam_game(n, rng)]
+                else:
+                    v2 = [float(x) for x in D.random_any_game(n, rng)]
+                if rng.random() < 0.5:
+                    v2 = [x * 4 for x in v2]
+                gen = chain_two(tid, n, cls, mode, v, v2, objs, rng, length, bool(a.gaps), w, reveal_only)
             if a.interleave:
                 pending.append((n, gen))
                 continue
             for out in gen:
                 if out is not None:
+                    out.pop("_more", None)
                     traces.append(out)
-            total_events += len(traces[-1]["events"])
+                    total_events += len(out["events"])
         if a.interleave or not traces:
             continue
         path = f"{a.out}_{a.family}_n{n}.json"
@@ -424,8 +504,10 @@ def main():
             n, gen = pending[k]
             out = next(gen)
             if out is not None:
+                more = out.pop("_more", 0)
                 done.setdefault(n, []).append(out)
-                pending.pop(k)
+                if not more:
+                    pending.pop(k)
         for n in sorted(done):
             traces = done[n]
             total_events += sum(len(t["events"]) for t in traces)
